@@ -76,7 +76,7 @@ def run_case(ctx, rng, index, casedir):
     hi = 400 if ctx.tier == "quick" else rng.choice([400, 1500, 5000])
     nrec = rng.choice([1, 2, 3, rng.randint(4, 40), rng.randint(40, hi)])
     walks = ggaf.make_walks(g, rng, nrec, maxlen=rng.choice([4, 12]), forced=nrec >= 6)
-    recs = [ggaf.make_record(g, rng, w, f"r{index}_{i}", offsets="canonical", tags="safe") for i, w in enumerate(walks)]
+    recs = [ggaf.make_record(g, rng, w, f"r{index}_{i}", offsets="canonical", tags=rng.choice(["safe", "grammar_plain"])) for i, w in enumerate(walks)]
     if len(recs) >= 100:
         sit["file_ge_100_records"] += 1
     mode = rng.choice(["plain", "bgzf", "pysam"])
